@@ -9,6 +9,7 @@ import re, os
 class SliceError(Exception):
     pass
 
+FLOATS_IN_SLICE = False
 MAXSEG = 18
 MAXPTS = 20
 
@@ -82,10 +83,12 @@ def slice_to_c(repo):
     # (floor(double(a)/double(b)) == a div b and double(t)/k == 1.0 <=> t == k hold exactly for operands < 2^20; stated assumption)
     b, n1 = re.subn(r'static_cast<\s*unsigned int\s*>\s*\(\s*std::floor\(\s*double\((.*?)\)\s*/\s*double\((.*?)\)\s*\)\s*\)', lambda m: '(uint32_t)((uint64_t)(%s) / (uint64_t)(%s))' % (m.group(1), m.group(2)), b, flags=re.S)
     b, n2 = re.subn(r'const\s+double\s+t_01\s*=\s*static_cast<\s*double\s*>\s*\(\s*(\w+)\s*\)\s*/\s*\(?\s*(\w+)\s*\)?\s*;', lambda m: 'uint32_t t_01_num = %s, t_01_den = %s; __CPROVER_assert(t_01_den != 0, "division by zero in t_01");' % (m.group(1), m.group(2)), b)
-    b = b.replace('(t_01==1.0)', '(t_01_num==t_01_den)').replace('(t_01==0.0)', '(t_01_num==0)')
-    if 'double' in b or 'float' in b:
-        k = b.index('double') if 'double' in b else b.index('float')
-        raise SliceError('floating-point construct outside the two recognised integer-valued patterns near: %r' % b[max(0, k - 80):k + 80])
+    if n2: b = b.replace('(t_01==1.0)', '(t_01_num==t_01_den)').replace('(t_01==0.0)', '(t_01_num==0)')
+    # any other floating-point code is kept verbatim (C-compatible after the cast rewrites below) and left to CBMC's
+    # bit-precise float model; the evidence records that floats were present in the slice
+    global FLOATS_IN_SLICE
+    FLOATS_IN_SLICE = bool(re.search(r'\bdouble\b|\bfloat\b', b))
+    if re.search(r'\bfloat\b', b): raise SliceError('single-precision float in the slice')
     # types / casts
     b = re.sub(r'static_cast<\s*unsigned int\s*>\s*\(', '(uint32_t)(', b)
     b = re.sub(r'static_cast<\s*double\s*>\s*\(', '(double)(', b)
